@@ -68,6 +68,15 @@ def proof_stage(pid, thorough=False):
         res['params'] = extract_params()
     except Exception as e:
         res['problems'].append(f'parameter extraction failed: {e}')
+    # source -> Lean translators (regenerated on every run; the source-tie theorems are proved about their output)
+    try:
+        import urgency2lean, sql2lean
+        tr = {'urgency': urgency2lean.extract_and_write(os.path.join(LEAN, 'Tcs', 'Generated', 'UrgencySrc.lean')),
+              'sql': sql2lean.extract_and_write(os.path.join(LEAN, 'Tcs', 'Generated', 'SqlSrc.lean'))}
+        if res['params'] is not None:
+            res['params']['translated_source'] = tr
+    except Exception as e:
+        res['problems'].append(f'source translation failed: {e}')
     mod = spec['module']
     res['checker_cmd'] = f'cd lean && lake build {mod} && lake env lean <audit of {len(spec["theorems"])} theorems with #print axioms>'
     if not spec['theorems']:
@@ -112,6 +121,33 @@ def proof_stage(pid, thorough=False):
             res['problems'].append(f'{t}: not found / does not check')
     if res['problems']:
         res['discharged'] = min(res['discharged'], res['obligations'] - 1) if any('forbidden' in p or 'sorry' in p for p in res['problems']) else res['discharged']
+    # source ties: each is its own module (built separately, so that a statement that no longer matches breaks exactly
+    # the obligations that are about it)
+    for tmod, tthms in spec.get('ties', []):
+        res['obligations'] += len(tthms)
+        rc, out = sh(['lake', 'build', tmod], cwd=LEAN, timeout=1800)
+        if rc != 0:
+            errs = [l for l in out.splitlines() if l.startswith('error:')][:3]
+            res['problems'].append(f'source tie {tmod} no longer checks against the current source (' + ' | '.join(e[:300] for e in errs) + ')')
+            for t in tthms:
+                res['theorems'].append({'name': t, 'axioms': None, 'ok': False, 'tie': tmod})
+            continue
+        audit = os.path.join(OUT, f'Audit_{pid}_{tmod.split(".")[-1]}.lean')
+        with open(audit, 'w') as f:
+            f.write(f'import {tmod}\n' + ''.join(f'#print axioms {t}\n' for t in tthms))
+        rc, out = sh(['lake', 'env', 'lean', audit], cwd=LEAN, timeout=600)
+        found = {}
+        for m in re.finditer(r"'([^']+)' depends on axioms: \[([^\]]*)\]", out.replace('\n', ' ')):
+            found[m.group(1)] = [a.strip() for a in m.group(2).split(',') if a.strip()]
+        for m in re.finditer(r"'([^']+)' does not depend on any axioms", out):
+            found[m.group(1)] = []
+        for t in tthms:
+            ok = t in found and set(found[t]) <= ALLOWED_AXIOMS
+            res['theorems'].append({'name': t, 'axioms': found.get(t), 'ok': ok, 'tie': tmod})
+            if ok:
+                res['discharged'] += 1
+            else:
+                res['problems'].append(f'{t}: not found / does not check')
     if thorough and not res['problems']:
         rc, out = sh(['lake', 'env', 'leanchecker', mod], cwd=LEAN, timeout=1800)
         res['leanchecker'] = 'ok' if rc == 0 else out[-500:]
